@@ -18,9 +18,10 @@ from engine_expr import ExprMixin
 from engine_stmt import StmtMixin, NEXT
 from engine_call import CallMixin
 from engine_prelude import PreludeMixin, LocalDictObj
+from engine_fold import FoldMixin
 
 
-class Engine(EngineBase, ExprMixin, StmtMixin, CallMixin, PreludeMixin):
+class Engine(EngineBase, ExprMixin, StmtMixin, CallMixin, PreludeMixin, FoldMixin):
     St = St
     Frame = Frame
 
@@ -123,7 +124,7 @@ class Engine(EngineBase, ExprMixin, StmtMixin, CallMixin, PreludeMixin):
         if getattr(self, '_allowed_cache', None) is not None:
             return self._allowed_cache
         allowed = {}
-        sf = self.spec_frame(mod, c.qual, cname, entry_env)
+        sf = self.spec_frame(mod, c.qual, cname, entry_env, old=({}, entry_env))
         entry = St((), {}, {})
         for m in c.modifies:
             if m == 'alloc':
@@ -152,7 +153,7 @@ class Engine(EngineBase, ExprMixin, StmtMixin, CallMixin, PreludeMixin):
         preds = [p(r) for p in allowed.get(key[0], [])]
         guard = z3.And(z3.Select(alive0, r), *[z3.Not(p) for p in preds])
         return z3.ForAll([r], z3.Implies(guard, z3.Select(arr, r) == z3.Select(init, r)),
-                         patterns=[z3.Select(arr, r)])
+                         patterns=[z3.Select(arr, r)] if z3.is_const(arr) else [z3.Select(init, r)])
 
     def check_frame(self, st, fr, c, mod, cname, entry_env):
         """Everything outside `modifies` (on objects alive at entry) is unchanged."""
